@@ -98,6 +98,21 @@ type UserNoPrefix struct {
 	V uint8
 }
 
+type MessageUserOne struct { // one-element arrays and a one-character string
+	V [1]uint16
+	W [1]uint8
+	S string     `mavlen:"1"`
+	F [1]float32 `mavext:"true"`
+}
+type MessageUserOneB struct { // the same fields without the arrays: a different CRC_EXTRA
+	V uint16
+	W uint8
+	S string
+	F float32 `mavext:"true"`
+}
+
+func (*MessageUserOne) GetID() uint32           { return 50021 }
+func (*MessageUserOneB) GetID() uint32          { return 50022 }
 func (*MessageUserA) GetID() uint32             { return 50001 }
 func (*MessageUserB) GetID() uint32             { return 50002 }
 func (*MessageUserC) GetID() uint32             { return 50003 }
@@ -123,3 +138,5 @@ var userStructs = []message.Message{
 	&MessageX{}, &MessageUserBadEnumKind{}, &MessageUserBadEnumType{}, &MessageUserBadEnumType2{},
 	&MessageUserBadType{}, &MessageUserBadNamed{}, &MessageUserBadLen{}, &UserNoPrefix{},
 }
+
+var userOne = []message.Message{&MessageUserOne{}, &MessageUserOneB{}}
